@@ -76,7 +76,7 @@ func runC19(c *Ctx, r *Report) {
 						r.check(okStore, "C19-R1-ambient", fn.Name()+"/time.Now", c.pos(ci.Pos()), "the wall clock is only stored in genTime", "time.Now() is used for something other than the generation-time stamp")
 						continue
 					}
-					if fnPkgPath(fn) == strPath && (strings.HasPrefix(name, "os.") ) {
+					if fnPkgPath(fn) == strPath && (strings.HasPrefix(name, "os.")) {
 						continue
 					}
 					r.fail("C19-R1-ambient", fn.Name()+"/"+name, c.pos(ci.Pos()), "generator calls "+name+" ("+why+"): output depends on more than the workbook and the flags")
